@@ -226,6 +226,9 @@ fn history_profile() -> cgen::Profile {
         topic_max: 3,
         pub_props: false,
         session_expiry: vec![3600],
+        // a due PINGREQ must not land inside a half-written request either
+        keepalive: vec![0, 0, 1, 3],
+        w_advance: 2,
         ..cgen::Profile::default()
     }
 }
